@@ -65,6 +65,8 @@ def tr_z(e, env):
     if isinstance(e, (ast.Name, ast.Attribute)) and ast.unparse(e) in env:
         return env[ast.unparse(e)]
     if isinstance(e, ast.UnaryOp) and isinstance(e.op, ast.USub):
+        if isinstance(e.operand, ast.Constant) and isinstance(e.operand.value, int) and not isinstance(e.operand.value, bool):
+            return '(%d)' % -e.operand.value          # a literal, not Z.opp applied to one (syntactic matches in proofs; coqchk)
         return '(- %s)' % tr_z(e.operand, env)
     if isinstance(e, ast.BinOp):
         ops = {ast.Add: '+', ast.Sub: '-', ast.Mult: '*', ast.Mod: 'mod', ast.FloorDiv: '/'}
